@@ -288,7 +288,7 @@ def rule_E1(tree: Tree) -> RuleResult:
             env[st.targets[0].id] = v
         elif isinstance(st, ast.If):
             arms = _assign_arms(st)
-            if arms is not None and len(arms) == 3 and decision is None:
+            if arms is not None and len(arms) >= 2 and decision is None and (len(arms) == 3 or any("pkn" in src(c, 200) or "window" in src(c, 200) for c, _, _ in arms if c is not None)):
                 decision = (st, arms)
             elif early is None and any(isinstance(x, ast.Return) for x in ast.walk(st)) and decision is None and st is not body[0]:
                 early = st
@@ -296,6 +296,12 @@ def rule_E1(tree: Tree) -> RuleResult:
     if decision is None:
         raise AnalysisError("get_full_packet_number: the three-way window decision (if / elif / else assigning one result) was not found")
     st, arms = decision
+    if len(arms) != 3:
+        r.instances += 1
+        extra = [src(c, 70) for c, _, _ in arms if c is not None]
+        r.ob(False, Finding("E1", f"{key}:arms", f"the window decision has {len(arms)} arms ({extra}); RFC 9000 A.3 has exactly three: candidate + window if it lies below the window around "
+                                                 f"largest+1, candidate − window if above, candidate otherwise — an additional case changes the result for the inputs it captures", m.line(st)))
+        return r
     want = expected_forms()
     # map opaque role expressions appearing un-named
     r.instances += 1
